@@ -20,7 +20,7 @@ EXPLANATION = (
     "(len(line) + 1 + len(word) > columns); a word longer than `columns` is cut into full-length pieces and only its last piece may "
     "be followed by another word on the same line; a text without words gives no lines."
 )
-NOT_DECIDED = "longer texts and wider limits; whitespace kinds other than space, tab and newline."
+NOT_DECIDED = "longer texts and wider limits; whitespace kinds beyond the sampled ones (space, tab, newline, U+3000, U+2003, U+2028, U+00A0, U+001C)."
 
 A1, A2, A3 = {"fg": 31}, {"bg": 44, "bold": True}, {"fg": 31, "underline": True}
 
@@ -31,6 +31,7 @@ GROUPS = {
     "W4-breaks-only-when-the-next-word-does-not-fit": "line breaks of the catalogue",
     "W5-long-words-cut-into-full-length-pieces": "words longer than the limit in the catalogue",
     "W6-no-words-no-lines": "texts without words in the catalogue",
+    "W7-a-call-does-not-depend-on-earlier-calls": "pairs of calls, one after the other in the same process",
 }
 
 
@@ -45,6 +46,11 @@ def layouts(text):
             if text[j - 1].isspace() and text[j].isspace():
                 yield "a uniformly formatted value with an empty run inside a gap", [(text[:j], A2), ("", {}), (text[j:], A2)]
                 break
+        # every gap uniformly formatted, but each gap with its own value of the same attribute (words plain)
+        segs = re.findall(r"\s+|\S+", text)
+        if sum(1 for x in segs if x.isspace()) >= 2:
+            colours = itertools.cycle(({"fg": 31}, {"fg": 34}, {"fg": 31, "bold": True}))
+            yield "a value whose gaps are formatted red, blue, bold red in turn", [(x, next(colours) if x.isspace() else {}) for x in segs]
 
 
 def check(src, rep):
@@ -56,7 +62,7 @@ def check(src, rep):
     it = new_interp(src)
     f = src.func("formatstring", "linesplit")
     maxlen = 7 if rep.tier == "thorough" else 5
-    alphabet = "ab \t" + ("\n" if rep.tier == "thorough" else "")
+    alphabet = "ab \t" + ("\n\u3000" if rep.tier == "thorough" else "")
     texts = [""]
     for n in range(1, maxlen + 1):
         for tup in itertools.product(alphabet, repeat=n):
@@ -66,7 +72,9 @@ def check(src, rep):
                 continue
             texts.append(t)
     texts += [" home    is where the heart-eating mummy is", "aaaa bbbbbbbbbbbbbbb c", "  ", "\t", "a", "abcdefghijkl", "ab  cd\tef \t gh",
-              "x " * 8, "abcdef abcdef", "abc de f ghijklmnop q"]
+              "x " * 8, "abcdef abcdef", "abc de f ghijklmnop q",
+              # whitespace is what str.split() / \\s call whitespace, not only the ASCII kinds
+              "a\u3000b", "a \u3000b", "\u3000", "a\x1cb", "a\u00a0b", "ab\u2003cd ef", "a\u2028b", "\u3000a\u3000"]
     # a first word longer than a line whose last piece leaves room for the next word
     for n1, n2 in itertools.product((4, 5, 7), (1, 2)):
         texts.append("a" * n1 + " " + "b" * n2)
@@ -156,7 +164,30 @@ def check(src, rep):
             return ("W2-words-kept-in-order-with-their-formatting", desc, "lines %r do not hold all words of the text" % (ltxt,))
         return None
     results = pmap(one, jobs, min_chunk=64)
+    # histories: a second call in the same process (module-level state the first one left behind) must obey the same clauses
+    hist = []
+    base = "ab  a b"
+    segs = re.findall(r"\s+|\S+", base)
+    for c1, c2 in (({"fg": 31}, {"fg": 34}), ({"fg": 34}, {"fg": 31}), ({"bg": 44}, {"bg": 41}), ({"bold": True}, {"bold": True, "fg": 31})):
+        first = [(x, c1 if x.isspace() else {}) for x in segs]
+        second = [(x, c2 if x.isspace() else A3) for x in segs]
+        hist.append((first, second))
     bad = {}
+    for first, second in hist:
+        for columns in (4, 9):
+            it2 = new_interp(src)
+            saved, it = it, it2
+            try:
+                r1 = one((base, "first call", first, columns))
+                r2 = one((base, "second call, after linesplit of the same text with gaps formatted %s" % (first[1][1],), second, columns))
+            finally:
+                it = saved
+            rep.case(True)
+            if r1 is None and r2 is not None:
+                if r2[0] == "error":
+                    rep.errors.append(r2[1])
+                else:
+                    bad.setdefault("W7-a-call-does-not-depend-on-earlier-calls", []).append((r2[1], "[%s] %s" % (r2[0], r2[2])))
     for job, res in zip(jobs, results):
         rep.case(True)
         if res is None:
